@@ -103,6 +103,11 @@ def _classes():
                 return 1 // 0
             raise LookupError(kind)
 
+        @api.callback
+        def raise_cb(self, kind):
+            # a method flagged @callback: the daemon re-raises what it raises on the server side as well (documented feature)
+            return self.raise_it(kind)
+
         def gen(self):
             yield 1
             raise Weird("in generator")
@@ -113,7 +118,7 @@ RAISE_KINDS = ["value", "weird", "sock", "lambda", "str", "repr", "reduce", "hug
 MUTATIONS = c06_wire.MUTATIONS + ["oversize", "bad-ser", "bad-ser", "bad-type"]
 
 msg_spec = st.fixed_dictionaries({
-    "base": st.sampled_from(["connect", "connect", "invoke", "invoke", "invoke", "ping", "garbage", "raise", "raise", "stream"]),
+    "base": st.sampled_from(["connect", "connect", "invoke", "invoke", "invoke", "ping", "garbage", "raise", "raise", "stream", "raise_cb"]),
     "ser": st.sampled_from(["marshal", "json", "serpent", "msgpack"]),
     "obj": st.sampled_from(["w", "w", "w", "nope", "Pyro.Daemon", "", 5]),
     "method": st.sampled_from(["f", "f", "raise_it", "nope", "_private", "__class__", "f.x", "gen", 7, None]),
@@ -144,8 +149,8 @@ def build_msg(m):
         mtype, payload = wire.CONNECT, live.raw_dumps(ser, {"handshake": "hello", "object": m["obj"]})
     elif m["base"] == "ping":
         mtype, payload = wire.PING, b"ping"
-    elif m["base"] == "raise":
-        mtype, payload = wire.INVOKE, live.call_payload(ser, "w", "raise_it", (m["raise_kind"],), {})
+    elif m["base"] in ("raise", "raise_cb"):
+        mtype, payload = wire.INVOKE, live.call_payload(ser, "w", "raise_it" if m["base"] == "raise" else "raise_cb", (m["raise_kind"],), {})
     elif m["base"] == "stream":
         mtype, payload = wire.INVOKE, live.call_payload(ser, "w", "gen", (), {})
     else:
@@ -549,6 +554,9 @@ def sweep_cases():
         for ser in ("marshal", "json", "serpent", "msgpack"):
             m = {"base": "raise", "ser": ser, "obj": "w", "method": "f", "raise_kind": kind, "flags": 0, "muts": [], "garbage": b""}
             yield {"steps": [{"kind": "hostile", "handshake": True, "msgs": [m, dict(m, base="invoke")], "end": "fin"}]}
+            m = dict(m, base="raise_cb")
+            yield {"steps": [{"kind": "hostile", "handshake": True, "msgs": [m, dict(m, base="invoke")], "end": "fin"},
+                             {"kind": "witness", "who": 0}]}
 
 
 def SHARDS(tier):
